@@ -16,4 +16,15 @@ WellShapedWhy(g, I, nj, nm) ==
                             /\ \E j \in Jobs(I) : {I[j][p].ms[1] : p \in 1..Len(I[j])} # 1..M)
   \cup bad("fewer-jobs-than-machines", ~g.allow_less /\ Len(I) < M)
 WellShaped(g, I, nj, nm) == WellShapedWhy(g, I, nj, nm) = {}
+
+(* --- the iteration protocol of GeneratorIter.tla as a function of a recorded call sequence  *)
+(* (used by the monitor): the indices whose logged result differs from the protocol           *)
+RECURSIVE IterMismatch(_, _, _, _)
+IterMismatch(cs, i, c, limit) ==
+    IF i > Len(cs) THEN {}
+    ELSE CASE cs[i].c = "iter" -> IterMismatch(cs, i + 1, 0, limit)
+           [] cs[i].c = "next" ->
+                IF c >= limit THEN (IF cs[i].r # "stop" THEN {i} ELSE {}) \cup IterMismatch(cs, i + 1, c, limit)
+                ELSE (IF cs[i].r # "yield" THEN {i} ELSE {}) \cup IterMismatch(cs, i + 1, c + 1, limit)
+           [] OTHER -> IterMismatch(cs, i + 1, c, limit)
 =============================================================================
